@@ -254,6 +254,7 @@ def run(ctx):
 
     _stale_alias_and_undo(ctx, repo, tables)
     dedup_exemption(ctx, 'C14.R9')
+    repr_dedup(ctx, 'C14.R10')
 
     # ---- R5 ----------------------------------------------------------------------
     pooled_typestate(ctx, 'C14.R5')
@@ -808,3 +809,52 @@ def dedup_exemption(ctx, RULE):
         F.builtin_hook, F.isinstance_hook = saved_b, saved_i
         F.stubs.clear()
         F.stubs.update(saved)
+
+
+_REPR_CALLS = {'repr', 'str', 'get_hint_repr'}
+
+
+def _is_repr_of(e, names):
+    return isinstance(e, ast.Call) and (dotted(e.func) or '').split('.')[-1] in _REPR_CALLS and len(e.args) == 1 \
+        and isinstance(e.args[0], ast.Name) and e.args[0].id in names
+
+
+def repr_dedup_sites(tree):
+    """Local de-duplication of objects by their repr(): `{repr(x): x for x in xs}`, `seen[repr(x)] = x`,
+    `if repr(x) not in seen: … seen.add(repr(x))` — two different objects that print alike collapse into one."""
+    out = []
+    for n in ast.walk(tree):
+        if isinstance(n, ast.DictComp):
+            vars_ = {t.id for g in n.generators for t in ast.walk(g.target) if isinstance(t, ast.Name)}
+            if _is_repr_of(n.key, vars_) and isinstance(n.value, ast.Name) and n.value.id in vars_:
+                out.append(n)
+        elif isinstance(n, (ast.For, ast.AsyncFor)):
+            vars_ = {t.id for t in ast.walk(n.target) if isinstance(t, ast.Name)}
+            for x in ast.walk(n):
+                if isinstance(x, ast.Assign) and isinstance(x.targets[0], ast.Subscript) and _is_repr_of(x.targets[0].slice, vars_) \
+                        and isinstance(x.value, ast.Name) and x.value.id in vars_:
+                    out.append(x)
+                if isinstance(x, ast.Call) and isinstance(x.func, ast.Attribute) and x.func.attr in ('add', 'setdefault') and x.args \
+                        and _is_repr_of(x.args[0], vars_):
+                    out.append(x)
+    return out
+
+
+def repr_dedup(ctx, RULE):
+    ctx.rule(RULE, 'no hint or class is de-duplicated by its repr() — `{repr(x): x for x in xs}`, `seen[repr(x)] = x`, '
+             '`seen.add(repr(x))` in a loop over the objects — anywhere in the package: two distinct classes created by one '
+             'factory print alike (the module-level coercion cache keyed that way is the known finding F3)')
+    # the matcher must fire on its positive examples, on every run
+    for ex in ('d = {get_hint_repr(h): h for h in hs}', 'for h in hs:\n    seen[repr(h)] = h', 'for h in hs:\n    seen.add(str(h))'):
+        ctx.require(len(repr_dedup_sites(ast.parse(ex))) == 1, f'{RULE}: the matcher does not fire on its positive example `{ex}`')
+    n = 0
+    for mn, m in sorted(ctx.repo.modules.items()):
+        if not mn.startswith('beartype.') or mn.startswith('beartype_test'):
+            continue
+        n += 1
+        for site in repr_dedup_sites(m.tree):
+            fn = enclosing_function(site)
+            ctx.ob(RULE, f'repr-dedup:{mn.split(".")[-1]}.{qualname_of(fn) if fn else "<module>"}', m.where(site),
+                   'objects are not collapsed by their printed representation', False,
+                   f'`{norm(site)[:90]}`: two distinct objects with one repr() become one')
+    ctx.ob(RULE, 'repr-dedup:package-scanned', 'beartype/__init__.py:0', f'{n} modules scanned', n >= 200, f'{n} modules')
